@@ -394,7 +394,7 @@ fn canons<R, E, I>(_b: &brood::entities::Batch<E>) -> PhantomData<CanonicalEntit
 
 
 # -------------------------------------------------------------------------------------------------
-@family('V-RES', props=['C15'], floor={'quick': 20, 'thorough': 150},
+@family('V-RES', props=['C15'], floor={'quick': 20, 'thorough': 90},
         doc='resource lookup is by type: get/get_mut/view_resources have the requested types for every position, subset and order')
 def v_res(tier, seed):
     P = '''use brood::{Registry, Resources, resources, World, query::{Views, result}};
@@ -410,8 +410,8 @@ pub struct R0(pub u8); pub struct R1(pub u16); pub struct R2(pub u32); pub struc
         for r in range(1, n + 1):
             for subset in itertools.combinations(range(n), r):
                 perms = list(itertools.permutations(subset))
-                if tier == 'quick' and len(perms) > 2:
-                    perms = [perms[0], perms[-1]]
+                if tier == 'quick' and len(perms) > 3:
+                    perms = [perms[0], perms[len(perms) // 2], perms[-1]]   # identity, a 3-cycle, reverse
                 for perm in perms:
                     muts = [(j + len(perm)) % 2 == 0 for j in range(len(perm))]
                     views = ', '.join('&%sR%d' % ('mut ' if m else '', i) for i, m in zip(perm, muts))
@@ -419,4 +419,55 @@ pub struct R0(pub u8); pub struct R1(pub u16); pub struct R2(pub u32); pub struc
                     checks = ''.join('    let _: &%sR%d = v%d;\n' % ('mut ' if m else '', i, j) for j, (i, m) in enumerate(zip(perm, muts)))
                     code = P + 'pub fn w(world: &mut World<Registry!(), %s>) {\n    let result!(%s) = world.view_resources::<Views!(%s), _>();\n%s}\n' % (rl, names, views, checks)
                     ws.append(W('view.n%d.%s' % (n, ''.join(map(str, perm))), code, 'compile', None, 'view_resources of %s in %d resources' % (list(perm), n)))
+                    if len(perm) >= 2 and (tier == 'thorough' or len(perm) == n):
+                        lviews = ', '.join("&'a %sR%d" % ('mut ' if m else '', i) for i, m in zip(perm, muts))
+                        code = P + '''use brood::{registry, query::{filter, Result}, system::System};
+pub struct S;
+impl System for S {
+    type Views<'a> = Views!();
+    type Filter = filter::None;
+    type ResourceViews<'a> = Views!(%s);
+    type EntryViews<'a> = Views!();
+    fn run<'a, R_, S_, I_, E_>(&mut self, q: Result<R_, S_, I_, Self::ResourceViews<'a>, Self::EntryViews<'a>, E_>) where R_: registry::Registry, I_: Iterator<Item = Self::Views<'a>> {
+        let result!(%s) = q.resources;
+%s    }
+}
+pub fn w(world: &mut World<Registry!(), %s>) { world.run_system(&mut S); }
+''' % (lviews, names, checks.replace('    let', '        let'), rl)
+                        ws.append(W('system.n%d.%s' % (n, ''.join(map(str, perm))), code, 'compile', None, 'system resource views of %s in %d resources' % (list(perm), n)))
+    return ws, True
+
+
+# -------------------------------------------------------------------------------------------------
+@family('V-VIEWS', props=['C03', 'C14'], floor={'quick': 30, 'thorough': 150},
+        doc='conflict-free views compile for every subset and order of the registry components, in every position (query views, entry views, sub-views of entries, World::entry), and yield items of the requested types')
+def v_views(tier, seed):
+    P = '''use brood::{entity, Registry, Resources, World, Query, query::{Views, result, filter}};
+use brood::entity as ent;
+pub struct C0(pub u8); pub struct C1(pub u16); pub struct C2(pub u32); pub struct C3(pub u64);
+'''
+    ws = []
+    maxn = 4 if tier == 'thorough' else 3
+    for n in range(2, maxn + 1):
+        reg = 'Registry!(%s)' % ', '.join('C%d' % i for i in range(n))
+        for r in range(1, n + 1):
+            for subset in itertools.combinations(range(n), r):
+                perms = list(itertools.permutations(subset))
+                if tier == 'quick' and len(perms) > 3:
+                    perms = [perms[0], perms[len(perms) // 2], perms[-1]]
+                for perm in perms:
+                    kinds = [KINDS[(i + j) % 4] for j, i in enumerate(perm)]
+                    views = ', '.join(ktxt(k, 'C%d' % i) for k, i in zip(kinds, perm))
+                    names = ', '.join('v%d' % j for j in range(len(perm)))
+                    checks = ''.join('        let _: %s = v%d;\n' % (ktxt(k, 'C%d' % i), j) for j, (k, i) in enumerate(zip(kinds, perm)))
+                    tag = 'n%d.%s' % (n, ''.join(map(str, perm)))
+                    code = P + 'pub fn w(world: &mut World<%s>) {\n    for result!(%s) in world.query(Query::<Views!(%s)>::new()).iter {\n%s    }\n}\n' % (reg, names, views, checks)
+                    ws.append(W('query.' + tag, code, 'compile', None, 'query views %s over %d components' % (views, n)))
+                    code = P + 'pub fn w(world: &mut World<%s>, id: ent::Identifier) {\n    let mut e = world.entry(id).unwrap();\n    if let Some(result!(%s)) = e.query(Query::<Views!(%s)>::new()) {\n%s    }\n}\n' % (reg, names, views, checks)
+                    ws.append(W('entry.' + tag, code, 'compile', None, 'World::entry query views %s' % views))
+                    if tier == 'thorough' or len(perm) == n:
+                        # entry views: declare all mutable, ask sub-views in this order with these kinds
+                        sup = ', '.join('&mut C%d' % i for i in sorted(subset))
+                        code = P + 'pub fn w(world: &mut World<%s>, id: ent::Identifier) {\n    let mut qr = world.query(Query::<Views!(), filter::None, Views!(), Views!(%s)>::new());\n    let mut e = qr.entries.entry(id).unwrap();\n    if let Some(result!(%s)) = e.query(Query::<Views!(%s)>::new()) {\n%s    }\n}\n' % (reg, sup, names, views, checks)
+                        ws.append(W('subviews.' + tag, code, 'compile', None, 'sub-views %s of entry views %s' % (views, sup)))
     return ws, True
